@@ -1,6 +1,6 @@
 (** Specification oracles for the store-level properties, evaluated on the implementation's own
     answers (no model state involved), and the shared case format.
-      prop code: 7 = C07, 13 = C13, 15 = C15, 16 = C16, 17 = C17 *)
+      prop code: 7 = C07, 13 = C13, 15 = C15, 16 = C16, 17 = C17, 18 = C18 *)
 From ID Require Export Check.Store.
 
 Record case := mkCase { c_prop : N; c_ids : list N; c_hist : list (sop * sres) }.
@@ -198,6 +198,22 @@ Fixpoint c16_scan (dl : nat) (t : track) (h : list (sop * sres)) (prev : list (s
        end) && c16_scan dl (track_step t o r) rest ((o, r) :: prev)
   end.
 
+(** ---- C18: the harness brackets every (wipe-and-)reopen by two identical dumps (contents,
+         heads, key-ordered and latest-per-key queries); the answers must not change ---- *)
+Definition c18_same (before after : list (sop * sres)) : bool :=
+  Nat.eqb (length before) (length after)
+  && forallb (fun ba => sres_eqb (snd (fst ba)) (snd (snd ba))) (combine before after).
+Fixpoint c18_scan (dl : nat) (h : list (sop * sres)) (prev : list (sop * sres)) : bool :=
+  match h with
+  | [] => true
+  | (o, r) :: rest =>
+      (match o with
+       | SWipeReopen _ _ | SReopen =>
+           match r with RUnit => c18_same (rev (firstn dl prev)) (firstn dl rest) | _ => false end
+       | _ => true
+       end) && c18_scan dl rest ((o, r) :: prev)
+  end.
+
 Fixpoint scan (ok : track -> sop -> sres -> bool) (t : track) (h : list (sop * sres)) : bool :=
   match h with
   | [] => true
@@ -211,6 +227,7 @@ Definition spec_ok (c : case) : bool :=
   else if c_prop c =? 15 then scan c15_ok tr0 h
   else if c_prop c =? 16 then c16_scan (4 * length (c_ids c) + 2) tr0 h []
   else if c_prop c =? 17 then scan c17_ok tr0 h
+  else if c_prop c =? 18 then c18_scan (N.to_nat (nth 0 (c_ids c) 0)) h []
   else true.
 
 Definition check (c : case) : N :=
